@@ -113,6 +113,7 @@ class Stats:
         self.truncated = False
         self.errors: list[str] = []
         self.parts: dict[str, dict] = {}
+        self.payload: dict = {}
 
     # -- recording -----------------------------------------------------------
     def record(self, spec, res: dict, enumerated: bool, sample: bool = True) -> list[dict]:
@@ -159,6 +160,7 @@ class Stats:
         self.excluded_known.update(other.excluded_known)
         self.truncated |= other.truncated
         self.errors.extend(other.errors)
+        self.payload.update(other.payload)
 
 
 class Found(Exception):
